@@ -19,7 +19,7 @@ Record dinv (s : dstate) : Prop := {
   di_count : forall t r, result_of (d_thr s) t = Some r ->
              In (t, fst r) (d_hist s) \/ (fst r = 0 /\ ~ In t (map fst (d_hist s)));
   di_bound : forall t c, In (t, c) (d_hist s) -> c <= length (frame_of (d_thr s) t);
-  di_shape_a : d_late s = false -> forall h x, d_hist s = h ++ [x] -> Forall (closed_entry (d_thr s)) h;
+  di_shape_a : forall h x, d_hist s = h ++ [x] -> Forall (closed_entry (d_thr s)) h;
   di_shape_b : d_torn s = false -> forall t c, In (t, c) (d_hist s) ->
                closed_entry (d_thr s) (t, c) \/ pc_of (d_thr s) t = Some (PWriting c);
   di_ok : d_broken s = false -> forall t n, result_of (d_thr s) t = Some (n, None) -> n = length (frame_of (d_thr s) t);
@@ -36,7 +36,7 @@ Proof.
   - constructor.
   - intros t c H. destruct t; discriminate.
   - intros t r H. destruct t; discriminate.
-  - intros _ h x H. destruct h; discriminate.
+  - intros h x H. destruct h; discriminate.
   - intros _ t n H. destruct t; discriminate.
 Qed.
 
@@ -96,7 +96,7 @@ Proof.
     + apply I6. unfold result_of. rewrite E. exact H.
     + simpl in E. subst. congruence.
   - intros t c H. rewrite Hfr by (eapply in_fst; eauto). auto.
-  - intros Hl h0 x Hh. specialize (I8 Hl h0 x Hh). rewrite Forall_forall in *. intros tc Htc.
+  - intros h0 x Hh. specialize (I8 h0 x Hh). rewrite Forall_forall in *. intros tc Htc.
     apply Hce; [subst; apply in_or_app; auto|]. auto.
   - intros Ht t c Hin. destruct (I9 Ht t c Hin) as [H|H].
     + left. apply Hce; assumption.
@@ -135,7 +135,7 @@ Proof.
     + simpl in H. inversion H; subst. right. simpl. auto.
     + auto.
   - intros t c H. rewrite frame_of_set. auto.
-  - intros Hl h0 x Hh. apply Forall_closed_set. eauto.
+  - intros h0 x Hh. apply Forall_closed_set. eauto.
   - intros Ht t c Hin. destruct (I9 Ht t c Hin) as [H|H].
     + left. apply closed_entry_set. exact H.
     + right. rewrite pc_of_set_other; [exact H|]. intros ->. rewrite Hp0 in H. inversion H; subst. discriminate.
@@ -167,7 +167,7 @@ Proof.
     rewrite pc_of_set_other; [exact H1|]. intros ->. rewrite Hp0 in H1. inversion H1; subst. discriminate.
   - intros t r H. apply result_of_set in H. destruct H as [[-> H]|[_ H]]; [discriminate|auto].
   - intros t c H. rewrite frame_of_set. auto.
-  - intros Hl h0 x Hh. apply Forall_closed_set. eauto.
+  - intros h0 x Hh. apply Forall_closed_set. eauto.
   - intros Ht t c Hin. destruct (I9 Ht t c Hin) as [H|H].
     + left. apply closed_entry_set. exact H.
     + right. rewrite pc_of_set_other; [exact H|]. intros ->. congruence.
@@ -180,11 +180,11 @@ Qed.
 
 (* DStartWrite t None *)
 Lemma dinv_begin th cx sem w q clg can cc h tn lt br t0 :
-  pc_of th t0 = Some PHold ->
+  pc_of th t0 = Some PHold -> tn = false ->
   dinv (mkD th cx sem w q clg can cc h tn lt br) ->
-  dinv (mkD (set_pc th t0 (PWriting 0)) cx sem w q clg can cc (h ++ [(t0, 0)]) tn (lt || tn) br).
+  dinv (mkD (set_pc th t0 (PWriting 0)) cx sem w q clg can cc (h ++ [(t0, 0)]) tn lt br).
 Proof.
-  intros Hp0 I. pose proof (pc_of_lt _ _ _ Hp0) as Hlt0.
+  intros Hp0 Htn I. pose proof (pc_of_lt _ _ _ Hp0) as Hlt0.
   pose proof (not_started_notin _ t0 _ I Hp0 eq_refl) as Hnotin. simpl in Hnotin.
   assert (Hnow : forall t c, pc_of th t = Some (PWriting c) -> False).
   { intros t c H. pose proof (di_sem _ I t _ H eq_refl) as H1. pose proof (di_sem _ I t0 _ Hp0 eq_refl) as H2.
@@ -207,8 +207,7 @@ Proof.
     + right. split; [exact H1|]. rewrite map_app, in_app_iff. simpl. intuition congruence.
   - intros t c H. rewrite frame_of_set. apply in_app_or in H. destruct H as [H|[H|[]]]; [auto|].
     inversion H; subst. lia.
-  - intros Hl h0 x Hh. apply app_inj_tail in Hh. destruct Hh as [<- _].
-    apply orb_false_iff in Hl. destruct Hl as [_ Htn]. apply Forall_closed_set.
+  - intros h0 x Hh. apply app_inj_tail in Hh. destruct Hh as [<- _]. apply Forall_closed_set.
     apply Forall_forall. intros [t c] Hin. destruct (I9 Htn t c Hin) as [H|H]; [exact H|]. exfalso. eauto.
   - intros Ht t c Hin. apply in_app_or in Hin. destruct Hin as [Hin|[Hin|[]]].
     + destruct (I9 Ht t c Hin) as [H|H]; [|exfalso; eauto]. left. apply closed_entry_set. exact H.
@@ -258,7 +257,7 @@ Proof.
   - intros t c H. rewrite frame_of_set. apply in_app_or in H. destruct H as [H|[H|[]]].
     + apply I7. apply in_or_app. auto.
     + inversion H; subst. exact Hk.
-  - intros Hl h1 x Hh. apply app_inj_tail in Hh. destruct Hh as [<- _]. apply Forall_closed_set.
+  - intros h1 x Hh. apply app_inj_tail in Hh. destruct Hh as [<- _]. apply Forall_closed_set.
     eapply I8; eauto.
   - intros Ht t c Hin. apply in_app_or in Hin. destruct Hin as [Hin|[Hin|[]]].
     + destruct (I9 Ht t c) as [H|H]; [apply in_or_app; auto| |].
@@ -288,10 +287,11 @@ Proof. intros H. unfold must_close. destruct (Nat.eqb_spec sent 0); [lia|]. rewr
 Lemma dinv_writeret th cx sem w q clg can cc h tn lt br t0 sent e :
   pc_of th t0 = Some (PWriting sent) ->
   dinv (mkD th cx sem w q clg can cc h tn lt br) ->
+  forall lt',
   dinv (mkD (set_pc th t0 (PReturned (sent, e))) cx None w q clg can cc h
-            (tn || torn_now sent (length (frame_of th t0))) lt (br || broken_now sent (length (frame_of th t0)) e)).
+            (tn || torn_now sent (length (frame_of th t0))) lt' (br || broken_now sent (length (frame_of th t0)) e)).
 Proof.
-  intros Hp0 I. pose proof (pc_of_lt _ _ _ Hp0) as Hlt0.
+  intros Hp0 I lt'. pose proof (pc_of_lt _ _ _ Hp0) as Hlt0.
   destruct (di_last _ I t0 sent Hp0) as [h0 Hh0]. simpl in Hh0.
   assert (Hin0 : In (t0, sent) h) by (subst h; apply in_or_app; simpl; auto).
   pose proof (di_bound _ I t0 sent Hin0) as Hb0. simpl in Hb0.
@@ -312,7 +312,7 @@ Proof.
   - intros t r H. apply result_of_set in H. destruct H as [[-> H]|[_ H]]; [|auto].
     simpl in H. inversion H; subst. left. exact Hin0.
   - intros t c H. rewrite frame_of_set. auto.
-  - intros Hl h1 x Hh. apply Forall_closed_set. eauto.
+  - intros h1 x Hh. apply Forall_closed_set. eauto.
   - intros Ht t c Hin. apply orb_false_iff in Ht. destruct Ht as [Ht Htn].
     destruct (I9 Ht t c Hin) as [H|H].
     + left. apply closed_entry_set. exact H.
@@ -362,7 +362,7 @@ Proof.
   - intros t r' H. apply result_of_set in H. destruct H as [[-> H]|[_ H]]; [|auto].
     apply I6. unfold result_of. rewrite Hp0. congruence.
   - intros t c H. rewrite frame_of_set. auto.
-  - intros Hl h1 x Hh. apply Forall_closed_set. eauto.
+  - intros h1 x Hh. apply Forall_closed_set. eauto.
   - intros Ht t c Hin. destruct (I9 Ht t c Hin) as [H|H].
     + left. apply closed_entry_set. exact H.
     + right. rewrite pc_of_set_other; [exact H|]. intros ->. rewrite Hp0 in H. inversion H. eapply Hw0; eauto.
@@ -403,7 +403,7 @@ Proof.
   - intros t r' H. apply result_of_set in H. destruct H as [[-> H]|[_ H]]; [|auto].
     rewrite Hr1 in H. inversion H; subst. right. simpl. auto.
   - intros t c H. rewrite frame_of_set. auto.
-  - intros Hl h1 x Hh. apply Forall_closed_set. eauto.
+  - intros h1 x Hh. apply Forall_closed_set. eauto.
   - intros Ht t c Hin. destruct (I9 Ht t c Hin) as [H|H].
     + left. apply closed_entry_set. exact H.
     + right. rewrite pc_of_set_other; [exact H|]. intros ->. congruence.
@@ -423,23 +423,39 @@ Ltac break_match H :=
          | context [match ?x with _ => _ end] => destruct x eqn:?; try discriminate
          end.
 
-Lemma dinv_step has_to s l s' : dinv s -> dstep has_to s l = Some s' -> dinv s'.
+(* what the writer remembers about torn writes *)
+Record dinv2 (s : dstate) : Prop := {
+  d2_torn : d_torn s = true -> d_failed s <> None;
+  d2_hold : forall t p, pc_of (d_thr s) t = Some p -> critical p = true -> d_failed s = None
+}.
+
+Lemma dinv2_init : dinv2 d_init.
+Proof. constructor; simpl; [discriminate|]. intros t p H. destruct t; discriminate. Qed.
+
+Lemma dinv_step has_to s l s' : dinv s -> dinv2 s -> dstep has_to s l = Some s' -> dinv s'.
 Proof.
-  intros I H. destruct s as [th cx sem w q clg can cc h tn lt br]. destruct l; cbn [dstep] in H.
+  intros I I2 H. destruct s as [th cx sem w q clg can cc h tn lt br]. destruct l; cbn [dstep] in H.
   - (* DCall *) destruct clg; [discriminate|]. inversion H; subst. apply dinv_append; auto; intros; discriminate.
-  - (* DCtxDone *) inversion H; subst. destruct I; constructor; auto.
+  - (* DCtxDone *) destruct (is_ctx_err e); [|discriminate]. inversion H; subst. destruct I; constructor; auto.
   - (* DCtx *) break_match H. inversion H; subst.
     eapply dinv_return0; eauto; try (intros; discriminate).
   - (* DQuitSel *) break_match H. inversion H; subst.
     eapply dinv_return0; eauto; try (intros; discriminate).
-  - (* DAcquire *) break_match H. inversion H; subst. apply dinv_acquire; assumption.
+  - (* DAcquire *) break_match H; inversion H; subst.
+    + apply dinv_return0 with (p0 := PSelect) (sem := None); try assumption; try reflexivity; try (intros; discriminate).
+      left. reflexivity.
+    + apply dinv_return0 with (p0 := PSelect) (sem := None); try assumption; try reflexivity; try (intros; discriminate).
+      left. reflexivity.
+    + apply dinv_acquire; assumption.
   - (* DStartWrite *) break_match H; inversion H; subst.
     + apply dinv_return0 with (p0 := PHold) (sem := sem); try assumption; try reflexivity; try (intros; discriminate).
       right. split; [reflexivity|]. eapply (di_sem _ I); [simpl; eassumption|reflexivity].
-    + apply dinv_begin; assumption.
+    + apply dinv_begin; try assumption.
+      destruct tn; [|reflexivity]. exfalso. apply (d2_torn _ I2 eq_refl). eapply (d2_hold _ I2); [simpl; eassumption|reflexivity].
   - (* DChunk *) break_match H. inversion H; subst. apply dinv_chunk; [assumption| |assumption].
     apply Nat.leb_le. assumption.
-  - (* DWriteRet *) break_match H. inversion H; subst. eapply dinv_writeret; eassumption.
+  - (* DWriteRet *) destruct (pc_of th t) as [[| |c| |r| |r1|r2|r3]|] eqn:Hpc; try discriminate. inversion H; subst.
+    eapply dinv_writeret; eassumption.
   - (* DAfter *) unfold after_return in H.
     destruct (pc_of th t) as [[| |c| |r| |r1|r2|r3]|] eqn:Hpc; try discriminate.
     + destruct (must_close r) eqn:Hm; [destruct clg eqn:Hclg|]; inversion H; subst.
@@ -465,8 +481,61 @@ Proof.
   - (* DEnvQuit *) inversion H; subst. destruct I; constructor; auto.
 Qed.
 
-Lemma dinv_reachable has_to ls s : drun has_to d_init ls = Some s -> dinv s.
+Lemma dinv2_step has_to s l s' : dinv s -> dinv2 s -> dstep has_to s l = Some s' -> dinv2 s'.
 Proof.
-  unfold drun. apply lts_invariant with (Inv := dinv); [|exact dinv_init].
-  intros s0 l s1. apply dinv_step.
+  intros I I2 H. destruct s as [th cx sem w q clg can cc h tn lt br]. destruct I2 as [J1 J2]. simpl in J1, J2.
+  assert (Hset : forall t0 p0 p1 tn' lt', pc_of th t0 = Some p0 ->
+            (critical p1 = true -> lt' = None) ->
+            (tn' = true -> lt' <> None) ->
+            (lt' = lt \/ forall t p, pc_of th t = Some p -> critical p = true -> t = t0) ->
+            forall cx' sem' w' q' clg' can' cc' h' br',
+            dinv2 (mkD (set_pc th t0 p1) cx' sem' w' q' clg' can' cc' h' tn' lt' br')).
+  { intros t0 p0 p1 tn' lt' Hp0 Hp1 Ht Hl cx' sem' w' q' clg' can' cc' h' br'. constructor; simpl; [exact Ht|].
+    intros t p Hp Hc. apply pc_of_set in Hp. destruct Hp as [[_ ->]|[Hne Hp]]; [auto|].
+    destruct Hl as [->|Hl]; [eauto|]. exfalso. apply Hne. eapply Hl; eauto. }
+  assert (Happ : forall f p1, critical p1 = false -> dinv2 (mkD (th ++ [(f, p1)]) cx sem w q clg can cc h tn lt br)).
+  { intros f p1 Hp1. constructor; simpl; [exact J1|]. intros t p Hp Hc. apply pc_of_app in Hp.
+    destruct Hp as [[_ Hp]|[_ Hp]]; [eauto|]. simpl in Hp. congruence. }
+  destruct l; cbn [dstep] in H.
+  - destruct clg; [discriminate|]. inversion H; subst. apply Happ. reflexivity.
+  - destruct (is_ctx_err e); [|discriminate]. inversion H; subst. constructor; simpl; auto.
+  - break_match H. inversion H; subst. eapply Hset; eauto; discriminate.
+  - break_match H. inversion H; subst. eapply Hset; eauto; discriminate.
+  - break_match H; inversion H; subst.
+    + eapply Hset; eauto; discriminate.
+    + eapply Hset; eauto; discriminate.
+    + (* acquired with tornErr = nil *)
+      constructor; simpl; [intros Ht; apply J1 in Ht; congruence|]. intros; reflexivity.
+  - destruct (pc_of th t) as [[| |c| |r| |r1|r2|r3]|] eqn:Hpc; try discriminate.
+    pose proof (J2 t _ Hpc eq_refl) as Hn. destruct dl as [e|].
+    + destruct has_to; [|discriminate]. inversion H; subst. eapply Hset; eauto; discriminate.
+    + inversion H; subst. eapply Hset; eauto.
+  - destruct (pc_of th t) as [[| |c| |r| |r1|r2|r3]|] eqn:Hpc; try discriminate.
+    pose proof (J2 t _ Hpc eq_refl) as Hn. break_match H; inversion H; subst. eapply Hset; eauto.
+  - (* DWriteRet *) destruct (pc_of th t) as [[| |c| |r| |r1|r2|r3]|] eqn:Hpc; try discriminate. inversion H; subst.
+    eapply Hset; eauto; try discriminate.
+    + intros Ht. destruct (torn_now c (length (frame_of th t))); [discriminate|].
+      rewrite orb_false_r in Ht. auto.
+    + right. intros t' p Hp Hc. pose proof (di_sem _ I t' _ Hp Hc) as H1. simpl in H1.
+      pose proof (di_sem _ I t _ Hpc eq_refl) as H2. simpl in H2. congruence.
+  - (* DAfter *) destruct (after_return th clg t) as [[th' clg']|] eqn:E; [|discriminate]. inversion H; subst.
+    unfold after_return in E. break_match E; inversion E; subst; (eapply Hset; eauto; discriminate).
+  - break_match H. inversion H; subst. eapply Hset; eauto; discriminate.
+  - break_match H. inversion H; subst. eapply Hset; eauto; discriminate.
+  - inversion H; subst. apply Happ. reflexivity.
+  - inversion H; subst. constructor; simpl; auto.
 Qed.
+
+Definition dall (s : dstate) : Prop := dinv s /\ dinv2 s.
+
+Lemma dall_reachable has_to ls s : drun has_to d_init ls = Some s -> dall s.
+Proof.
+  unfold drun. apply lts_invariant with (Inv := dall); [|split; [exact dinv_init|exact dinv2_init]].
+  intros s0 l s1 [I I2] H. split; [eapply dinv_step; eauto|eapply dinv2_step; eauto].
+Qed.
+
+Lemma dinv_reachable has_to ls s : drun has_to d_init ls = Some s -> dinv s.
+Proof. intros H. exact (proj1 (dall_reachable has_to ls s H)). Qed.
+
+Lemma dinv2_reachable has_to ls s : drun has_to d_init ls = Some s -> dinv2 s.
+Proof. intros H. exact (proj2 (dall_reachable has_to ls s H)). Qed.
